@@ -9,6 +9,7 @@ import (
 	"strings"
 
 	"ddcheck/core"
+	"ddcheck/pea"
 
 	"golang.org/x/tools/go/ssa"
 )
@@ -105,7 +106,7 @@ var debugFields = map[string]bool{
 
 // C13: options do only what they say.
 func C13(p *core.Program, r *core.Report) {
-	r.Explanation = "L1: values of log-flag predicates (Logger.IsLog*, hasFlag, logger==nil) are used only as branch conditions. L2: for every such branch the log region (the blocks that become unreachable when the logging-enabled edge is removed) is write-only: it stores only into locals created inside it or into the two reviewed debug maps, calls only log sinks, unanalysed standard-library formatting, or functions whose effect summary (PEA) writes no tracked region, parameter, package-level state or pre-existing struct field other than those debug maps; no value computed inside the region is merged back into the normal flow (phi) and no result-bearing return sits inside it. L3/L4: all decision paths of Apply are enumerated with the stores into Result as events: PaginationInfo is stored exactly when !SkipPagination && OriginalURL != nil, URL exactly when OriginalURL != nil and from OriginalURL.String(), every other result field is stored on every successful path from values that mention neither pagination option, and Apply branches on nothing but the documented conditions. L5: the pagination finders write neither the document nor the page URL they are given (effect summaries), so the choice of algorithm cannot leak into later results."
+	r.Explanation = "L1: values of log-flag predicates (Logger.IsLog*, hasFlag, logger==nil) are used only as branch conditions. L2: for every such branch the log region (the blocks that become unreachable when the logging-enabled edge is removed) is write-only: it stores only into locals created inside it or into the two reviewed debug maps, calls only log sinks, unanalysed standard-library formatting, or functions whose effect summary (PEA) writes no tracked region, parameter, package-level state or pre-existing struct field other than those debug maps; no value computed inside the region is merged back into the normal flow (phi) and no result-bearing return sits inside it. L3/L4: all decision paths of Apply are enumerated with the stores into Result as events: PaginationInfo is stored exactly when !SkipPagination && OriginalURL != nil, URL exactly when OriginalURL != nil and from OriginalURL.String(), every other result field is stored on every successful path from values that mention neither pagination option, and Apply branches on nothing but the documented conditions. L5: the pagination finders write neither the document nor the page URL they are given (effect summaries), so the choice of algorithm cannot leak into later results. L6: no code below the entry points writes the caller's Options or the URL they point to (effect analysis, shared with C10), so Result.URL, rendered after extraction, is the supplied URL."
 	r.NotCovered = "that both pagination algorithms agree with each other; wall-clock TimingInfo; effects of logging on the log output stream itself."
 
 	a := runPEA(p)
@@ -420,6 +421,33 @@ func C13(p *core.Program, r *core.Report) {
 		}
 	}
 	r.Add("L5", "both pagination finders are examined", p.Pos(ap.Pos()), nFind == 2, fmt.Sprintf("%d FindPagination calls in Apply", nFind))
+	// L6: Result.URL is rendered from the caller's URL after extraction: it is the supplied URL only
+	// if nothing below the entry points writes the Options or the URL they point to (the C10
+	// result for these two regions, re-evaluated here)
+	for _, e := range entryPoints {
+		fn := p.Func(core.ModPath + "." + e.name)
+		if fn == nil {
+			continue
+		}
+		bind := map[int]int32{e.opts: a.CallerOpts}
+		if e.doc >= 0 {
+			bind[e.doc] = a.CallerDoc
+		}
+		var hits []string
+		seenHit := map[string]bool{}
+		for _, ef := range a.EntryEffects(fn, bind) {
+			li := a.Label(ef.Target)
+			if li.Kind != pea.KCaller || (li.Name != "CallerOpts" && li.Name != "CallerURL") {
+				continue
+			}
+			h := fmt.Sprintf("%s of %s written by %s", ef.Field, li.Name, core.ShortKey(ef.Fn))
+			if !seenHit[h] && len(hits) < 4 {
+				seenHit[h] = true
+				hits = append(hits, h+" ("+strings.Join(a.Chain(ef), " > ")+")")
+			}
+		}
+		r.Add("L6", e.name+": the options and the page URL are only read", p.Pos(fn.Pos()), len(hits) == 0, strings.Join(hits, "; "))
+	}
 
 	// the option fields are read only to steer
 	for _, b := range ap.Blocks {
